@@ -35,6 +35,9 @@ using namespace llbuild::buildsystem;
 
 CommandSignature ExternalCommand::getSignature() const {
   CommandSignature code(getName());
+  // The number of inputs delimits the input list from the output list below, so
+  // that moving a node from one list to the other changes the signature.
+  code = code.combine(std::to_string(inputs.size()));
   for (const auto* input: inputs) {
     code = code.combine(input->getName());
   }
